@@ -23,6 +23,7 @@
 # This file contains types and functions which help build ANSI escape code strings
 
 import re
+import sys
 import math
 from typing import Any, Union, List, Dict, Tuple
 from .ansi_param import AnsiParam, AnsiParamEffect, EFFECT_CLEAR_DICT
@@ -700,6 +701,10 @@ class AnsiString:
             (start, end) values where accompanying formats should be applied
         '''
         extend_formatting = True
+        width_match = re.search(r'[0-9]+\Z', string_format)
+        if width_match and int(width_match.group()) > sys.maxsize:
+            # (like str: a ValueError, not the OverflowError that the justification would raise)
+            raise ValueError('Too many decimal digits in format string')
         match = re.search(r'^(?:(.?)([+-]?)<)?([0-9]*)\Z', string_format, re.DOTALL)
         if match:
             # Left justify
